@@ -1,4 +1,5 @@
 import PlumpyModel.Props.C13
+import PlumpyModel.PM.Proof11g
 /-!
 # C06 — a wake-up is never lost to a concurrent pause or interruption
 
@@ -11,9 +12,30 @@ while an interruption is being delivered is parked (repair I), `awaiting` the wo
 The theorems below are the protocol's safety core, for every configuration: an accepted wake-up is stored or parked,
 never dropped; a later one never overwrites it; re-arming after an interruption hands the parked outcome to the fresh
 future; a completed wait activates the continuation with exactly that value (`C13_wait_resume_exact`).
-Not yet proved as one history-level theorem ("the first accepted value is the argument of the continuation's activation
-in every continuation of the history"): decided by the correspondence check and the Python monitor on every explored
-schedule.
+
+**History level** (second half of the file; helper lemmas in `PM/Proof11.lean` … `PM/Proof11g.lean`, namespace `PMF.H6`).
+Property text: "the value passed to the first resume() is delivered exactly once to the continuation".
+
+* `C06_delivery` (at least once): in EVERY configuration reachable by any history, if the current WAITING state holds an
+  outcome `v` for its continuation `fn` (`H6.Holds`: its future completed with `v`, or `v` is parked in the wake-up slot
+  while the future carries an interruption) and the process is playing (not paused, no pause request and no kill request
+  pending), the very next callback of the stepping task activates `fn` with `v`'s argument list (`H6.argsOf`: `[]` for a
+  resume without value, `[x]` for `x`) — a new entry of the `trace` log.  Never WAITING for ever.
+* `C06_first_resume_wins` (at most once, first value wins): split any history at a `resume(v)` that is ACCEPTED
+  (`Accepts`: the process is WAITING for `fn`, nothing delivered yet).  Whatever follows — further `resume(u)`, pause, play,
+  interruptions and re-arming of the wait, kill, fail, awaitable callbacks, ticks in any order — the first activation
+  logged after that point, if any, is `fn` with `v`'s arguments; and as long as none is logged the process is still in
+  that WAITING epoch holding `v`, or RUNNING `fn(v)` but not yet activated (paused), or terminated.
+  So the later values never reach the continuation, the continuation is not activated with anything else, and together
+  with `C06_delivery` it is activated (once playing) with exactly the first value.
+* `C06_no_activation_while_waiting_empty`: see its doc comment (nothing is activated for an epoch that holds no outcome).
+
+The only hypothesis on the history is `H6.histFuelOk`: no single callback of the stepping task executes `fuel0` (1000)
+process steps without suspending once.  It is needed: when `loopHead` runs out of fuel it returns with a STALE program
+counter, and the model's next tick would re-run an already consumed continuation (for instance wake a NEW wait with the
+value of an old one).  The real code can only match such a run by not returning from the callback; the driver never
+reaches it (`C06_witness_fuel_exhaustion`, `C06_first_resume_wins_full_is_false`).  The hypothesis is a decidable `Bool`
+function of the program and the history (see the examples).
 -/
 namespace PMF
 
@@ -91,6 +113,161 @@ theorem C06_retracted_pause_keeps_wakeup (c : Cfg) (k i : Nat) (hl : terminal c.
   simp only [hp, hd]
   exact ⟨finally_st c, finally_wfs c⟩
 
+/-! ## History level -/
+
+/-- **C06 — a wake-up is delivered (history level).**  Take any user program `P`, any number of awaitables and ANY
+history `evs` of ticks, scheduled callbacks and pause / play / kill / resume / fail / cancel / complete / call_soon events
+in which no callback ran out of fuel.  If the configuration reached is WAITING for continuation `fn` and its wait holds
+the outcome `v` (`H6.Holds`: the waiting future completed with `v`, or `v` is parked while the future carries an
+interruption), and the process is playing — not paused, no pause request pending, and no kill request pending (a pending
+kill rightly wins: C04) — then ONE more callback of the stepping task activates the continuation: the trace of user calls
+gains the entry `fn(*argsOf v)` (not started paused), directly on top of the old trace (further entries `extra` only if
+the continuation itself ran to completion synchronously and later steps followed in the same callback). -/
+theorem C06_delivery (P : Prog) (nf : Nat) (evs : List Ev) (hfuel : H6.histFuelOk P (init nf) evs = true)
+    (fn wf : Nat) (wk : Option WF) (aw : List (Nat × Nat)) (v : Option Val)
+    (hst : (run P (init nf) evs).st = .waiting fn wf wk aw)
+    (hh : H6.Holds (run P (init nf) evs) wf wk v)
+    (hpa : (run P (init nf) evs).paused = none) (hpi : (run P (init nf) evs).pausing = none)
+    (hk : (run P (init nf) evs).killing = none) :
+    ∃ extra, (ticks P 1 (run P (init nf) evs)).trace =
+      extra ++ { fn := fn, args := H6.argsOf v, kw := [], paused := false } :: (run P (init nf) evs).trace :=
+  H6.tick_delivers P _ fn wf wk aw v (H6.run_coh P _ evs (H6.coh_init nf) hfuel) hst hh hpa hpi hk
+
+/-- `resume(v)` on this configuration is accepted as THE wake-up of the current WAITING epoch (continuation `fn`):
+nothing was delivered to it yet — its future is pending, or carries an interruption with an empty wake-up slot -/
+def Accepts (c : Cfg) (fn : Nat) : Prop :=
+  ∃ wf wk aw, c.st = .waiting fn wf wk aw ∧
+    (c.wfs[wf]? = some .pending ∨ ((∃ k, c.wfs[wf]? = some (.interrupted k)) ∧ wk = none))
+
+/-- an accepted `resume(v)` makes the wait hold `v` (`C06_resume_accepted`, `C06_resume_parked` in one statement) -/
+theorem C06_accepted_holds (c : Cfg) (fn : Nat) (v : Option Val) (h : Accepts c fn) :
+    ∃ wf wk aw, (resume c v).1.st = .waiting fn wf wk aw ∧ H6.Holds (resume c v).1 wf wk v ∧
+      (resume c v).1.trace = c.trace := by
+  obtain ⟨wf, wk, aw, hst, hp | ⟨⟨k, hk⟩, hwk⟩⟩ := h
+  · have := C06_resume_accepted c fn wf wk aw v hst hp
+    exact ⟨wf, wk, aw, this.2.1.trans hst, Or.inl this.2.2, H6.resume_trace c v⟩
+  · subst hwk
+    have := C06_resume_parked c fn wf aw v k hst hk
+    exact ⟨wf, some (.result v), aw, this.2.1, Or.inr ⟨⟨k, by rw [this.2.2]; exact hk⟩, rfl⟩, H6.resume_trace c v⟩
+
+/-- what can have become of a `resume(v)` that configuration `c₁` accepted for continuation `fn`, in a later
+configuration `c`:
+
+* the trace grew, and the FIRST activation logged after the accepted resume is `fn(*argsOf v)`, not started paused
+  (`extra` are later activations: the continuation's successors);
+* or nothing was activated since (`c.trace = c₁.trace`) and the process terminated (kill / fail / …), or is RUNNING
+  `fn(*argsOf v)` between two steps (woken with `v`, activation still ahead — it is paused), or is still in the same
+  WAITING epoch whose wait still holds `v`. -/
+def ResumeOutcome (c₁ c : Cfg) (fn : Nat) (v : Option Val) : Prop :=
+  (∃ extra, c.trace = extra ++ { fn := fn, args := H6.argsOf v, kw := [], paused := false } :: c₁.trace) ∨
+  (c.trace = c₁.trace ∧
+    (terminal c.st.label = true ∨
+     (c.st = .running fn (H6.argsOf v) [] ∧ c.stepping = false) ∨
+     ∃ wf wk aw, c.st = .waiting fn wf wk aw ∧ H6.Holds c wf wk v))
+
+/-- **C06 — the first accepted value wins, and it is delivered at most once (history level).**  Split any history at a
+`resume(v)` event that is accepted (`Accepts`) by the configuration `c₁` reached by the first part `evs₁`; let `evs₂` be
+ANY continuation (later `resume(u)` with other values, pause / play in any interleaving, interruptions that re-arm the
+wait, kill, fail, awaitable callbacks, ticks) and `c` the configuration at its end.  Then `ResumeOutcome c₁ c fn v`: the
+first activation logged since is `fn` with `v`'s arguments, or nothing was activated and `v` is still held / about to be
+passed / the process terminated.  In particular a later `resume(u)` never replaces `v`, nothing but `fn(v)` is activated
+next, and (the wait being consumed by that activation: the state is then RUNNING) the epoch's continuation is not
+activated a second time. -/
+theorem C06_first_resume_wins (P : Prog) (nf : Nat) (evs₁ evs₂ : List Ev) (fn : Nat) (v : Option Val)
+    (hfuel : H6.histFuelOk P (init nf) (evs₁ ++ .resume v :: evs₂) = true)
+    (hacc : Accepts (run P (init nf) evs₁) fn) :
+    ResumeOutcome (run P (init nf) evs₁) (run P (init nf) (evs₁ ++ .resume v :: evs₂)) fn v := by
+  rw [H6.histFuelOk_append, Bool.and_eq_true] at hfuel
+  obtain ⟨hf1, hf2⟩ := hfuel
+  have hC1 := H6.run_coh P _ evs₁ (H6.coh_init nf) hf1
+  have hrun : run P (init nf) (evs₁ ++ .resume v :: evs₂) = run P (resume (run P (init nf) evs₁) v).1 evs₂ := by
+    rw [H6.run_append]; rfl
+  have hf2' : H6.histFuelOk P (resume (run P (init nf) evs₁) v).1 evs₂ = true := by
+    unfold H6.histFuelOk at hf2
+    rw [Bool.and_eq_true] at hf2
+    exact hf2.2
+  obtain ⟨wf, wk, aw, hst, hh, htr⟩ := C06_accepted_holds _ fn v hacc
+  have hD := H6.run_deliv P _ evs₂ (H6.resume_coh _ v hC1) hf2' (H6.Deliv.held wf wk aw hst hh htr)
+  rw [hrun]
+  cases hD with
+  | held wf' wk' aw' hst' hh' ht' => exact Or.inr ⟨ht', Or.inr (Or.inr ⟨wf', wk', aw', hst', hh'⟩)⟩
+  | ready hst' hns ht' => exact Or.inr ⟨ht', Or.inr (Or.inl ⟨hst', hns⟩)⟩
+  | over hterm ht' => exact Or.inr ⟨ht', Or.inl hterm⟩
+  | done extra ht' => exact Or.inl ⟨extra, ht'⟩
+
+/-- `C06_first_resume_wins` without its fuel hypothesis (kept as a statement: it is FALSE of the model, see below) -/
+def C06_first_resume_wins_full : Prop :=
+  ∀ (P : Prog) (nf : Nat) (evs₁ evs₂ : List Ev) (fn : Nat) (v : Option Val), Accepts (run P (init nf) evs₁) fn →
+    ResumeOutcome (run P (init nf) evs₁) (run P (init nf) (evs₁ ++ .resume v :: evs₂)) fn v
+
+/-- the process is WAITING for continuation `fn` and NOTHING has been delivered to that wait: the wake-up slot is empty and
+the future is pending or carries an interruption -/
+def WaitsEmpty (c : Cfg) (fn : Nat) : Prop :=
+  ∃ wf aw, c.st = .waiting fn wf none aw ∧ (c.wfs[wf]? = some .pending ∨ ∃ k, c.wfs[wf]? = some (.interrupted k))
+
+/-- **C06 — no activation without a delivered outcome (history level).**  If after `evs₁` the process is WAITING for `fn`
+with nothing delivered, then along ANY continuation `evs₂` that contains no delivery — no `resume`, no awaitable
+done-callback (the workchain's own way of completing the wait) — but any ticks, pauses, plays, interruptions that
+re-arm the wait, kills, fails, nothing at all is activated: the trace of user calls is unchanged, and the process is
+still WAITING for `fn` with nothing delivered, or it terminated.  A continuation is only ever started by an outcome. -/
+theorem C06_no_activation_while_waiting_empty (P : Prog) (nf : Nat) (evs₁ evs₂ : List Ev) (fn : Nat)
+    (hfuel : H6.histFuelOk P (init nf) (evs₁ ++ evs₂) = true)
+    (hw : WaitsEmpty (run P (init nf) evs₁) fn)
+    (hnd : ∀ e ∈ evs₂, (∀ u, e ≠ .resume u) ∧ (∀ f, e ≠ .tickCb (.adone f))) :
+    (run P (init nf) (evs₁ ++ evs₂)).trace = (run P (init nf) evs₁).trace ∧
+    (terminal (run P (init nf) (evs₁ ++ evs₂)).st.label = true ∨ WaitsEmpty (run P (init nf) (evs₁ ++ evs₂)) fn) := by
+  rw [H6.histFuelOk_append, Bool.and_eq_true] at hfuel
+  obtain ⟨wf, aw, hst, he⟩ := hw
+  have hC1 := H6.run_coh P _ evs₁ (H6.coh_init nf) hfuel.1
+  have hU := H6.run_unres P _ evs₂ hC1 hfuel.2 hnd (H6.Unres.waiting wf aw hst he rfl)
+  rw [H6.run_append]
+  cases hU with
+  | waiting wf' aw' hst' he' ht' => exact ⟨ht', Or.inr ⟨wf', aw', hst', he'⟩⟩
+  | over hterm ht' => exact ⟨ht', Or.inl hterm⟩
+
+/-- a program with a chain of exactly `fuel0` synchronous steps between two waits: fn 0 waits for fn 1, fn 1 … fn 999
+continue with the next one, fn 1000 waits for fn 1001, which stops -/
+def fuelWitness : Prog := fun fn _ _ _ =>
+  if fn = 0 then ⟨0, .ret (.wait 1)⟩ else if fn < 1000 then ⟨0, .ret (.cont (fn + 1) [] [])⟩
+  else if fn = 1000 then ⟨0, .ret (.wait 1001)⟩ else ⟨0, .ret (.stop none true)⟩
+
+/-- **why `histFuelOk` is a hypothesis** (a finding about the MODEL, not about plumpy): on `fuelWitness` the callback that
+consumes `resume(7)` runs out of fuel exactly when the second wait has been entered, and returns with the stale program
+counter "awaiting future 0".  The second wait then accepts `resume(8)` — and the model's next tick wakes it with the value
+of the FIRST wait: fn 1001 is activated with `[7]`.  So `C06_first_resume_wins` without the fuel hypothesis is false of
+the model (the real code cannot produce this run: its callback would simply go on). -/
+theorem C06_witness_fuel_exhaustion :
+    Accepts (run fuelWitness (init 0) [.tick, .resume (some 7), .tick]) 1001 ∧
+    H6.histFuelOk fuelWitness (init 0) ([.tick, .resume (some 7), .tick] ++ .resume (some 8) :: [.tick]) = false ∧
+    (((run fuelWitness (init 0) ([.tick, .resume (some 7), .tick] ++ .resume (some 8) :: [.tick])).trace.take 1).map
+      fun a => (a.fn, a.args)) = [(1001, [7])] := by
+  have h1 : (run fuelWitness (init 0) [.tick, .resume (some 7), .tick]).st = .waiting 1001 1 none [] ∧
+      (run fuelWitness (init 0) [.tick, .resume (some 7), .tick]).wfs[1]? = some .pending := by decide +kernel
+  have h2 : H6.histFuelOk fuelWitness (init 0) ([.tick, .resume (some 7), .tick] ++ .resume (some 8) :: [.tick]) = false ∧
+      (((run fuelWitness (init 0) ([.tick, .resume (some 7), .tick] ++ .resume (some 8) :: [.tick])).trace.take 1).map
+        fun a => (a.fn, a.args)) = [(1001, [7])] := by decide +kernel
+  exact ⟨⟨1, none, [], h1.1, Or.inl h1.2⟩, h2⟩
+
+/-- the statement without the fuel hypothesis is refuted by `fuelWitness`: the activation that follows the accepted
+`resume(8)` is logged with `[7]` -/
+theorem C06_first_resume_wins_full_is_false : ¬ C06_first_resume_wins_full := by
+  intro h
+  have hw := C06_witness_fuel_exhaustion
+  have hr := h fuelWitness 0 [.tick, .resume (some 7), .tick] [.tick] 1001 (some 8) hw.1
+  have ht : (run fuelWitness (init 0) ([.tick, .resume (some 7), .tick] ++ .resume (some 8) :: [.tick])).trace =
+      { fn := 1001, args := [7], kw := [], paused := false } ::
+        (run fuelWitness (init 0) [.tick, .resume (some 7), .tick]).trace := by decide +kernel
+  rcases hr with ⟨extra, he⟩ | ⟨he, _⟩
+  · rw [ht] at he
+    have hl := congrArg List.length he
+    simp only [List.length_cons, List.length_append] at hl
+    have : extra = [] := List.eq_nil_of_length_eq_zero (by omega)
+    subst this
+    simp [H6.argsOf] at he
+  · rw [ht] at he
+    have hl := congrArg List.length he
+    simp at hl
+
 -- non-vacuity and the races of section 9: pause then resume inside one loop iteration; the value arrives after play
 section
 private def waiter : Prog := fun fn _ _ _ => if fn = 0 then ⟨0, .ret (.wait 1)⟩ else ⟨0, .ret (.stop none true)⟩
@@ -99,6 +276,51 @@ example : ((run waiter (init 0) [.tick, .pause, .resume (some 5), .tick, .play, 
 example : ((run waiter (init 0) [.tick, .pause, .play, .resume (some 5), .resume (some 6), .tick, .tick]).trace.map
     fun a => (a.fn, a.args)) = [(1, [5]), (0, [])] := by decide +kernel
 example : (run waiter (init 0) [.tick, .pause, .resume (some 5), .tick, .play, .tick]).st = .finished none true := by
+  decide +kernel
+
+-- history level: the Waiter program of harness/pm.py (fn 0 waits, fn 1 stops), history
+-- [tick, pause, resume 5, play, tick, tick]: no callback runs out of fuel ...
+example : H6.histFuelOk waiter (init 0) [.tick, .pause, .resume (some 5), .play, .tick, .tick] = true := by decide +kernel
+-- ... after [tick, pause, resume 5, play] the value 5 is PARKED (the future carries the interruption of the retracted
+-- pause) and the process is playing: all hypotheses of `C06_delivery` hold, so the next tick activates fn 1 with [5]
+example : ∃ extra, (ticks waiter 1 (run waiter (init 0) [.tick, .pause, .resume (some 5), .play])).trace =
+    extra ++ { fn := 1, args := [5], kw := [], paused := false } ::
+      (run waiter (init 0) [.tick, .pause, .resume (some 5), .play]).trace :=
+  C06_delivery waiter 0 [.tick, .pause, .resume (some 5), .play] (by decide +kernel) 1 0 (some (.result (some 5))) [] (some 5)
+    (by decide +kernel) (Or.inr ⟨⟨0, by decide +kernel⟩, rfl⟩) (by decide +kernel) (by decide +kernel) (by decide +kernel)
+-- the same with the value in the future itself (resume arrives while the stepper is suspended on the wait, no pause)
+example : H6.Holds (run waiter (init 0) [.tick, .resume none]) 0 none none := Or.inl (by decide +kernel)
+-- `Accepts`: after [tick, pause] the wait of fn 1 carries the interruption and nothing is parked; after [tick] it is pending
+example : Accepts (run waiter (init 0) [.tick, .pause]) 1 :=
+  ⟨0, none, [], by decide +kernel, Or.inr ⟨⟨0, by decide +kernel⟩, rfl⟩⟩
+example : Accepts (run waiter (init 0) [.tick]) 1 := ⟨0, none, [], by decide +kernel, Or.inl (by decide +kernel)⟩
+-- `C06_first_resume_wins` on [tick, pause] ++ resume 5 :: [resume 6, play, resume 7, tick, tick]: its first alternative
+-- holds, the activation after the accepted resume is fn 1 with [5]; 6 and 7 are gone
+example : H6.histFuelOk waiter (init 0) ([.tick, .pause] ++ .resume (some 5) :: [.resume (some 6), .play, .resume (some 7), .tick, .tick]) = true := by
+  decide +kernel
+example : ((run waiter (init 0) ([.tick, .pause] ++ .resume (some 5) :: [.resume (some 6), .play, .resume (some 7), .tick, .tick])).trace.map
+    fun a => (a.fn, a.args)) = [(1, [5]), (0, [])] := by decide +kernel
+-- `C06_no_activation_while_waiting_empty`: waiting with nothing delivered after [tick]; pause, tick (re-arm), play, ticks
+-- activate nothing
+example : WaitsEmpty (run waiter (init 0) [.tick]) 1 := ⟨0, [], by decide +kernel, Or.inl (by decide +kernel)⟩
+example : H6.histFuelOk waiter (init 0) ([.tick] ++ [.pause, .tick, .play, .tick, .tick]) = true := by decide +kernel
+example : ∀ e ∈ [Ev.pause, .tick, .play, .tick, .tick], (∀ u, e ≠ .resume u) ∧ (∀ f, e ≠ .tickCb (.adone f)) := by
+  intro e he
+  simp at he
+  rcases he with rfl | rfl | rfl | rfl <;> exact ⟨fun _ h => (by cases h), fun _ h => (by cases h)⟩
+example : ((run waiter (init 0) ([.tick] ++ [.pause, .tick, .play, .tick, .tick])).trace.map fun a => a.fn) = [0] ∧
+    (run waiter (init 0) ([.tick] ++ [.pause, .tick, .play, .tick, .tick])).st = .waiting 1 1 none [] := by decide +kernel
+-- ... and each of the other alternatives of `C06_first_resume_wins` occurs: still waiting and holding 5 (paused), terminated before the activation
+example : (run waiter (init 0) ([.tick, .pause] ++ .resume (some 5) :: [.resume (some 6), .tick, .tick])).st =
+    .waiting 1 1 none [] ∧
+    (run waiter (init 0) ([.tick, .pause] ++ .resume (some 5) :: [.resume (some 6), .tick, .tick])).wfs[1]? = some (.result (some 5)) := by
+  decide +kernel
+example : (run waiter (init 0) ([.tick] ++ .resume (some 5) :: [.pause, .tick])).st = .running 1 [5] [] ∧
+    (run waiter (init 0) ([.tick] ++ .resume (some 5) :: [.pause, .tick])).stepping = false ∧
+    ((run waiter (init 0) ([.tick] ++ .resume (some 5) :: [.pause, .tick])).trace.map fun a => a.fn) = [0] := by
+  decide +kernel
+example : (run waiter (init 0) ([.tick, .pause] ++ .resume (some 5) :: [.kill, .tick])).st = .killed ∧
+    ((run waiter (init 0) ([.tick, .pause] ++ .resume (some 5) :: [.kill, .tick])).trace.map fun a => a.fn) = [0] := by
   decide +kernel
 end
 
